@@ -51,6 +51,9 @@ def run_adjoint_helpers(rep, tier):
     """E3 for the SECOND-ORDER rules of dot / tensordot: the adjoint helpers dot_adjoint_0/1 and tensordot_adjoint_0/1 are primitives of their own; their
     reverse rules (used when a gradient is differentiated again) must return arrays shaped like the helper's differentiated argument - for all sizes."""
     rv, rj, anp, dropped = load()
+    for hn_ in ("dot_adjoint_0", "dot_adjoint_1", "tensordot_adjoint_0", "tensordot_adjoint_1"):
+        if hn_ in rv.helpers:
+            rep.function(f"autograd.numpy.numpy_vjps.{hn_}", rv.helpers[hn_].fun)
     cases = [c for c in _struct_cases(tier) if c[1] in ("dot", "tensordot")]
     rep.bound(f"E3 adjoint helpers: {len(cases)} dot / tensordot call forms x 2 helpers x 2 differentiated arguments; all dimension sizes symbolic")
     npaths = 0
@@ -134,6 +137,138 @@ def _native_adjoint(spec):
         return True, f"raises {type(e).__name__}: {str(e)[:80]} (allowed)", "-"
 
 
+FFT_NAMES = ("fft", "ifft", "fft2", "ifft2", "fftn", "ifftn", "rfft", "irfft", "rfft2", "irfft2", "rfftn", "irfftn", "fftshift", "ifftshift", "fftfreq", "rfftfreq", "hfft", "ihfft")
+
+
+def load_fft():
+    if "fft" in _cache:
+        return _cache["fft"]
+    import types
+    rv0, rj0, anp, _ = load()
+    rv, rj = shadow.Recorder(), shadow.Recorder()
+    ff = shadow.Namespace("fft", sx.fft_impls())
+
+    def wrap_namespace(old, new):
+        for nm in FFT_NAMES:
+            new[nm] = getattr(ff, nm)
+    ns, dropped = shadow.load("autograd/numpy/fft.py", dict(anp=anp, ffto=types.SimpleNamespace(), defvjp=rv.defvjp, defjvp=rj.defjvp, primitive=rv.primitive, wrap_namespace=wrap_namespace,
+                                                           vspace=lambda x: types.SimpleNamespace(shape=sx.shape_of(x)), match_complex=_cache["ns_v"]["match_complex"]))
+    _cache["fft"] = (rv, rj, ff, anp, dropped)
+    _cache["fft_ns"] = ns
+    return _cache["fft"]
+
+
+def _fft_cases(tier):
+    A = lambda *d, kind="real": ("A", d, kind)
+    N = lambda nm: ("N", nm)          # a symbolic transform length (n= / entries of s=)
+    C = []
+    for kind in ("real", "complex"):
+        k = "" if kind == "real" else " complex"
+        for nm in ("fft", "ifft"):
+            for shp, axis in ((("a",), -1), (("a", "b"), -1), (("a", "b"), 0), (("a", "b", "c"), 1)):
+                C.append((f"{nm}{shp} axis={axis}{k}", nm, [A(*shp, kind=kind)], {"axis": axis}, (0,)))
+                C.append((f"{nm}{shp} n=N axis={axis}{k}", nm, [A(*shp, kind=kind), N("N")], {"axis": axis}, (0,)))
+        for nm in ("fft2", "ifft2", "fftn", "ifftn"):
+            for shp in (("a", "b"), ("a", "b", "c")):
+                C.append((f"{nm}{shp}{k}", nm, [A(*shp, kind=kind)], {}, (0,)))
+                C.append((f"{nm}{shp} s=(N,M) axes=(0,1){k}", nm, [A(*shp, kind=kind), ("NS", ("N", "M"))], {"axes": (0, 1)}, (0,)))
+                C.append((f"{nm}{shp} axes=(-1,0){k}", nm, [A(*shp, kind=kind)], {"axes": (-1, 0)}, (0,)))
+        for nm in ("fftshift", "ifftshift"):
+            C.append((f"{nm}('a','b'){k}", nm, [A("a", "b", kind=kind)], {}, (0,)))
+            C.append((f"{nm}('a','b') axes=1{k}", nm, [A("a", "b", kind=kind)], {"axes": 1}, (0,)))
+    for nm in ("rfft",):
+        for shp, axis in ((("a",), -1), (("a", "b"), -1), (("a", "b"), 0)):
+            C.append((f"{nm}{shp} axis={axis}", nm, [A(*shp)], {"axis": axis}, (0,)))
+            C.append((f"{nm}{shp} n=N axis={axis}", nm, [A(*shp), N("N")], {"axis": axis}, (0,)))
+    for nm in ("irfft",):
+        for shp, axis in ((("a",), -1), (("a", "b"), -1), (("a", "b"), 0)):
+            C.append((f"{nm}{shp} axis={axis}", nm, [A(*shp, kind="complex")], {"axis": axis}, (0,)))
+            C.append((f"{nm}{shp} n=N axis={axis}", nm, [A(*shp, kind="complex"), N("N")], {"axis": axis}, (0,)))
+    for nm, kd in (("rfft2", "real"), ("rfftn", "real"), ("irfft2", "complex"), ("irfftn", "complex")):
+        for shp in (("a", "b"), ("a", "b", "c")):
+            C.append((f"{nm}{shp}", nm, [A(*shp, kind=kd)], {}, (0,)))
+            C.append((f"{nm}{shp} s=(N,M) axes=(0,1)", nm, [A(*shp, kind=kd), ("NS", ("N", "M"))], {"axes": (0, 1)}, (0,)))
+    return C
+
+
+def run_fft(rep, tier):
+    """E3 for autograd/numpy/fft.py: the reverse rules (through the real truncate_pad, make_rfft_factors, get_*_args) return an array of the argument's shape and
+    kind for ALL array sizes and ALL transform lengths n= / s= (truncation and zero-padding both); odd lengths of the real transforms and repeated axes raise."""
+    try:
+        rv, rj, ff, anp, dropped = load_fft()
+    except CheckerError as e:
+        rep.obligation("E3:fft:load", False, "-", 0, "E3")
+        rep.violation("E3:fft:load", "autograd/numpy/fft.py", f"the module no longer loads on the abstract namespace: {e}", witness=False, solver_output=str(e))
+        return
+    import types as _types
+    for nm_, ob_ in sorted(_cache["fft_ns"].items()):
+        if isinstance(ob_, _types.FunctionType) and getattr(ob_, "__module__", "") == "shadow:autograd/numpy/fft.py" and ob_.__name__ != "<lambda>":
+            rep.function(f"autograd.numpy.fft.{nm_}", ob_)
+    if "truncate_pad" in rv.helpers:
+        rep.function("autograd.numpy.fft.truncate_pad", rv.helpers["truncate_pad"].fun)
+    cases = _fft_cases(tier)
+    rep.bound(f"E3 fft: {len(cases)} call forms (fft/ifft/fft2/ifft2/fftn/ifftn/rfft*/irfft*/fftshift with axis / axes / symbolic n= and s=) enumerated; array sizes and transform lengths symbolic")
+    rep.assume("NumPy shape contracts of numpy.fft in vlib/shapex.fft_impls: assumed, audited against NumPy on concrete sizes in every run")
+    npaths = 0
+    for label, name, spec, kwargs, argnums in cases:
+        case = f"{label}|arg0|vjp"
+
+        def harness(L, name=name, spec=spec, kwargs=kwargs):
+            _state["oblig"] = []
+            syms = {}
+            args = []
+            for it in spec:
+                if it[0] == "N":
+                    v = L.int(it[1])
+                    if L.model is None:
+                        cx.assume(v >= 1)
+                    args.append(v)
+                elif it[0] == "NS":
+                    vs_ = []
+                    for q in it[1]:
+                        v = L.int(q)
+                        if L.model is None:
+                            cx.assume(v >= 1)
+                        vs_.append(v)
+                    args.append(tuple(vs_))
+                else:
+                    args.extend(_sym_args(L, [it], syms))
+            x = args[0]
+            if L.model is None:
+                for d in sx.shape_of(x):
+                    cx.assume(d >= 1)       # NumPy's fft rejects empty axes
+            ans = getattr(ff, name)(*args, **kwargs)
+            _state["oblig"] = []
+            mk = rv.vjps.get((name, 0))
+            if mk is None:
+                return None
+            res = mk(ans, *args, **kwargs)(sx.SArr(sx.shape_of(ans), sx.kind_of(ans)))
+            if not isinstance(res, sx.SArr):
+                return None
+            return (sx.shape_of(res), sx.kind_of(res)), list(_state["oblig"]), (sx.shape_of(x), sx.kind_of(x))
+        try:
+            results, _ = cx.explore(harness)
+        except (shadow.NotModelled, CheckerError) as e:
+            rep.uncover(f"E3 fft: {case}: {e}"[:160])
+            continue
+        for r in results:
+            if r.exc is None and r.value is None:
+                continue
+            npaths += 1
+            if r.exc is None:
+                res, obl, want = r.value
+                r.value = (res, obl)
+            else:
+                res, want = None, (None, None)
+                if isinstance(r.exc, (shadow.NotModelled, NotImplementedError)):
+                    if isinstance(r.exc, shadow.NotModelled):
+                        rep.uncover(f"E3 fft: {case}: {type(r.exc).__name__}: {str(r.exc)[:60]}")
+                    continue
+            _check_leaf(rep, tier, f"vjp:fft.{name}:{case}", r, res, want[0], want[1], case, dict(module="contracts.rules_shape", family="fft", label=label, argnum=0, mode="vjp"))
+    rep.extra["e3_fft_paths"] = npaths
+    audit_fft(rep)
+
+
 LINALG_NAMES = ("inv", "det", "slogdet", "cholesky", "pinv", "solve", "eigh", "norm", "svd", "eig", "eigvals", "eigvalsh", "matrix_rank", "lstsq", "qr", "matrix_power", "multi_dot", "tensorsolve", "tensorinv", "cond")
 
 
@@ -155,6 +290,7 @@ def load_linalg():
                                                               defjvp_argnum=rj.defjvp_argnum, def_linear=rj.def_linear, isbox=lambda x: True, wrap_namespace=wrap_namespace,
                                                               unbroadcast_f=_cache["ns_v"]["unbroadcast_f"], unbroadcast=_cache["ns_v"]["unbroadcast"], primitive=rv.primitive))
     _cache["la"] = (rv, rj, la, anp, dropped)
+    _cache["la_ns"] = ns
     return _cache["la"]
 
 
@@ -208,6 +344,11 @@ def run_linalg(rep, tier):
         rep.obligation("E3:linalg:load", False, "-", 0, "E3")
         rep.violation("E3:linalg:load", "autograd/numpy/linalg.py", f"the module no longer loads on the abstract namespace: {e}", witness=False, solver_output=str(e))
         return
+    import types as _types
+    for nm_, ob_ in sorted(_cache["la_ns"].items()):
+        if isinstance(ob_, _types.FunctionType) and getattr(ob_, "__module__", "") == "shadow:autograd/numpy/linalg.py" and ob_.__name__ != "<lambda>":
+            rep.function(f"autograd.numpy.linalg.{nm_}", ob_)
+    rep.function("autograd/numpy/linalg.py (module-level defvjp/defjvp lambdas)", __import__("os").path.join(__import__("vlib.common", fromlist=["REPO"]).REPO, "autograd/numpy/linalg.py"))
     cases = _linalg_cases(tier)
     rep.bound(f"E3 linalg: {len(cases)} call forms (inv/det/slogdet/cholesky/pinv/eigh/eig/svd with 0..{2 if tier == 'quick' else 3} batch dimensions, real and complex; solve in every NumPy-2 shape class "
               "incl. broadcasting batches; norm over axis / axis pairs) enumerated; all dimension sizes symbolic")
@@ -752,6 +893,74 @@ def _native_linalg(spec):
         return True, f"raises {type(e).__name__}: {str(e)[:80]} (allowed)", "-"
 
 
+def _fft_native_args(aspec, sizes):
+    import numpy as onp
+    args = []
+    for it in aspec:
+        if it[0] == "N":
+            args.append(max(1, int(sizes.get(it[1], 4))))
+        elif it[0] == "NS":
+            args.append(tuple(max(1, int(sizes.get(q, 4))) for q in it[1]))
+        else:
+            shp = tuple(max(1, int(sizes.get(d, 4))) if isinstance(d, str) else d for d in it[1])
+            n = int(onp.prod(shp))
+            arr = (onp.sin(onp.arange(n, dtype=float) * 1.3) + 0.2).reshape(shp)
+            if len(it) > 2 and it[2] == "complex":
+                arr = arr + 1j * onp.cos(onp.arange(n, dtype=float) * 0.7).reshape(shp)
+            args.append(arr)
+    return args
+
+
+def _native_fft(spec):
+    import numpy as onp
+
+    import autograd.numpy as anp
+    import autograd.numpy.fft  # noqa
+    from autograd.core import make_vjp
+    case = next((c for c in _fft_cases("thorough") if c[0] == spec["label"]), None)
+    if case is None:
+        return True, "case removed", ""
+    label, name, aspec, kwargs, argnums = case
+    args = _fft_native_args(aspec, spec.get("sizes", {}))
+    f = lambda z: getattr(anp.fft, name)(z, *args[1:], **kwargs)
+    try:
+        vjp, val = make_vjp(f, args[0])
+        r = onp.asarray(vjp(onp.ones(onp.shape(val), dtype=onp.asarray(val).dtype)))
+        ok = r.shape == args[0].shape and bool(onp.iscomplexobj(r)) == bool(onp.iscomplexobj(args[0]))
+        return ok, f"gradient shape {r.shape} dtype {r.dtype} for argument shape {args[0].shape} dtype {args[0].dtype}", "the argument's shape and kind"
+    except Exception as e:
+        return True, f"raises {type(e).__name__}: {str(e)[:80]} (allowed)", "-"
+
+
+def audit_fft(rep):
+    """the assumed numpy.fft shape contracts against NumPy itself on concrete sizes (every case of the family, several size assignments)"""
+    import numpy as onp
+    ff = sx.fft_impls()
+    n = bad = 0
+    for label, name, aspec, kwargs, argnums in _fft_cases("thorough"):
+        syms = sorted({d for it in aspec if it[0] == "A" for d in it[1] if isinstance(d, str)} | {it[1] for it in aspec if it[0] == "N"} | {q for it in aspec if it[0] == "NS" for q in it[1]})
+        for trial in range(4):
+            sizes = {s_: (2 + (trial + 3 * i) % 5) for i, s_ in enumerate(syms)}
+            args = _fft_native_args(aspec, sizes)
+            try:
+                real = getattr(onp.fft, name)(*args, **kwargs)
+            except Exception:
+                continue
+            res_, _ = cx.explore(lambda L: ff[name](*[sx.SArr(v.shape, "complex" if onp.iscomplexobj(v) else "real") if isinstance(v, onp.ndarray) else v for v in args], **kwargs))
+            n += 1
+            okc = len(res_) == 1 and res_[0].exc is None
+            if okc:
+                ab = res_[0].value
+                shp = tuple(int(d) if isinstance(d, int) else int(z3.simplify(sx.dim_term(d)).as_long()) for d in sx.shape_of(ab))
+                okc = shp == tuple(real.shape) and sx.kind_of(ab) == ("complex" if onp.iscomplexobj(real) else "real")
+            if not okc:
+                bad += 1
+                rep.violation("E3:fft:contract-audit", f"{label}|{sizes}", f"assumed contract of fft.{name} disagrees with NumPy (NumPy: {real.shape} {real.dtype})", witness=False,
+                              solver_output="the ASSUMED NumPy contract is wrong (a defect of the checker, not of autograd)")
+    rep.obligation("E3:fft:contract-audit", bad == 0 and n > 0, "numpy(ground)", 0, "E3")
+    rep.extra["e3_fft_contract_audit_cases"] = n
+
+
 def audit_linalg(rep):
     """The assumed shape contracts of numpy.linalg against NumPy itself on small concrete sizes (every case of the family, sizes 0..3 per symbol, deterministic sample)."""
     import numpy as onp
@@ -802,6 +1011,8 @@ def replay(spec):
         return _native_linalg(spec)
     if spec.get("family") == "adjoint":
         return _native_adjoint(spec)
+    if spec.get("family") == "fft":
+        return _native_fft(spec)
     sizes = spec.get("sizes", {})
 
     def arr(tag, rank, kind):
